@@ -284,3 +284,12 @@ Theorem C13_cover_certificate_example :
   cover_check (cons (0, 0, (4, 4), true) nil) (cons (0, 0, (2, 2), true) (cons (3, 3, (4, 4), true) nil)) = false /\
   cover_check (cons (0, 0, (4, 4), true) nil) (cons (0, 0, (3, 3), true) (cons (2, 2, (4, 4), true) nil)) = false.
 Proof. exact cover_example. Qed.
+
+(** queue filling ALLOCATES exactly two events per non-collapsed edge, nothing else (exact
+    instance; [starts_of]: one start point per non-collapsed edge; the queue holds exactly these:
+    C13_one_pair_per_nondegenerate_edge) *)
+From GB Require Import EventBound QuadBound TrivialProofs.
+Theorem C13_queue_filling_allocates_two_events_per_edge :
+  forall (A B : list (FillQueue.polygon NQ)) (op : operation),
+  nids (FillQueue.f_st (FillQueue.fill_queue A B op)) = (2 * (length (@starts_of NQ A) + length (@starts_of NQ B)))%nat.
+Proof. exact fill_queue_nids. Qed.
